@@ -142,7 +142,7 @@ def judge_writes(cfg, writes, fin):
     return out
 
 
-def explore_cfg(cfg, want_roots=False):
+def explore_cfg(cfg, want_roots=False, collate=True):
     """Return (stats, fails) for one configuration: all merge trees, then the real finaliser."""
     parts, wpc, spill, hl, fl, min_part, use_writer = cfg
     P = len(parts)
@@ -179,8 +179,32 @@ def explore_cfg(cfg, want_roots=False):
     want_obs = [(len(d), k) for row in data for d, k in row]
     outcomes = Counter()
     finals = set()
-    for root in dp.roots:
-        tree = dp.tree(0, P, root)
+    # sub-streams: every composition of the partitions into >= 2 consecutive groups, every merge tree inside each
+    # group (interval DP), then the REAL collate op over the group roots (left fold with spill) - the path mpu_write
+    # takes for a list of bags
+    roots = [(r, dp.tree(0, P, r)) for r in dp.roots]
+    if P >= 2 and collate:
+        seen_roots = set(dp.roots)
+        for cuts in itertools.chain.from_iterable(itertools.combinations(range(1, P), k) for k in range(1, min(P, 4))):
+            bounds = (0, *cuts, P)
+            groups = [dp.reach[(a, b)] for a, b in zip(bounds, bounds[1:])]
+            for combo in itertools.product(*groups):
+                w = mkw()
+                subs = [build(st) for st in combo]
+                prior = tuple(x for st in combo for x in st[8])
+                shape = ("collate", tuple(dp.tree(a, b, st) for (a, b), st in zip(zip(bounds, bounds[1:]), combo)))
+                dp.transitions += 1
+                try:
+                    out = _call(lambda: M._mpu_collate_op(subs, write=w, spill_sz=spill), "collate")
+                except StepError as e:
+                    fails.append((e.key, f"{e.msg}; tree={shape}", shape))
+                    continue
+                st = canon(out, prior + tuple(w.log if w else ()))
+                if st not in seen_roots:
+                    seen_roots.add(st)
+                    roots.append((st, shape))
+                    outcomes["collate-only-root"] += 1
+    for root, tree in roots:
         w = mkw()
         mpu = build(root)
         seen_obs = {}
@@ -220,7 +244,7 @@ def explore_cfg(cfg, want_roots=False):
         finals.add((tuple(sorted(writes)), tuple(p["PartNumber"] for p in (w.final or []))))
         ids = [p for p, _ in writes]
         outcomes[f"parts{min(len(ids), 5)}"] += 1
-    stats = dict(states=dp.states, transitions=dp.transitions, roots=len(dp.roots),
+    stats = dict(states=dp.states + len(roots) - len(dp.roots), transitions=dp.transitions, roots=len(roots),
                  trees=statespace.count_trees(P), outcomes=outcomes, finals=finals)
     if want_roots:
         stats["root_states"] = list(dp.roots)
